@@ -53,9 +53,11 @@ func NewStunServer(h *simnet.Host, addr string) *StunServer {
 // VerifWithTURNClientFactory). Listen/Allocate/Close act on simnet; Allocate parks until the
 // simulator releases it and may be failed by it.
 type TurnStub struct {
-	W         *simnet.World
-	RelayHost *simnet.Host
-	RelayIP   string
+	// RelayCloseErr, if set, makes Close of every relayed connection return this error.
+	RelayCloseErr error
+	W             *simnet.World
+	RelayHost     *simnet.Host
+	RelayIP       string
 
 	mu      sync.Mutex
 	Clients []*TurnClientStub
@@ -116,6 +118,15 @@ func (c *TurnClientStub) Allocate() (net.PacketConn, error) {
 	conn, err := c.stub.RelayHost.Net().ListenPacket("udp4", net.JoinHostPort(c.stub.RelayIP, "0"))
 	if err != nil {
 		return nil, fmt.Errorf("%w: %v", errTurnAllocate, err)
+	}
+	if c.stub.RelayCloseErr != nil {
+		// teardown fault: closing the relayed connection reports an error (the Refresh(0) of a real TURN
+		// client fails when the network is gone); the socket is closed anyway
+		if so := c.stub.W.FindSockAnywhere(netip.MustParseAddrPort(conn.LocalAddr().String())); so != nil {
+			c.stub.W.Lock()
+			so.CloseErr = c.stub.RelayCloseErr
+			c.stub.W.Unlock()
+		}
 	}
 	c.stub.mu.Lock()
 	c.Allocated = append(c.Allocated, conn)
